@@ -74,6 +74,11 @@ class Kw{i}:
 '''
 
 
+def to_snake(s):
+    import re
+    return re.sub(r"([A-Z])", lambda m: "_" + m.group(1).lower(), s)
+
+
 def _out(fn):
     from apischema import ValidationError
     try: return ("ok", fn())
@@ -164,6 +169,33 @@ def run_part(prop, seed, budget):
                     _fail(failures, "two-sided-definitions", "property-names-changed-by-the-dialect-conversion", version=str(ver), aliaser=al_name, got=d, expected=want)
                 elif sorted(d.get("required", [])) and not set(d.get("required", [])) <= set(props):
                     _fail(failures, "two-sided-definitions", "required-names-a-key-that-is-not-a-property", version=str(ver), aliaser=al_name, got=d)
+    if prop == "C16":
+        # a resolver registered as a serialized method with an order: one permutation in serialization, its schema and the GraphQL type
+        from apischema.graphql import graphql_schema
+        src = ["from dataclasses import dataclass, field", "from apischema import order", "from apischema.graphql import resolver", "",
+               "@dataclass", f"class Ro{i}:", "    a: int = 0", "    b: int = field(default=1, metadata=order(2))",
+               "    @resolver(serialized=True, order=order(-1))", "    def first(self) -> int: return 1",
+               "    @resolver(serialized=True, order=order(after='a'))", "    def after_a(self) -> int: return 2",
+               "    @resolver(serialized=True)", "    def last(self) -> int: return 3", ""]
+        g = vars(build_module(src, f"corners7ord_{seed}")); Ro = g[f"Ro{i}"]
+        def ro() -> Ro: return Ro()
+        n += 1; distinct.add(case_hash("c7-resolver-order")); hist["ordered-resolvers-registered-as-serialized-methods"] += 1
+        views = {"serialize": _out(lambda: list(serialize(Ro, Ro()))), "serialization_schema": _out(lambda: list(serialization_schema(Ro)["properties"])),
+                 "graphql": _out(lambda: [to_snake(x) for x in graphql_schema(query=[ro]).type_map[f"Ro{i}"].fields])}
+        want = ["first", "a", "after_a", "last", "b"]
+        if any(v != ("ok", want) for v in views.values()): _fail(failures, "ordered-resolvers", "views-do-not-follow-one-order", views={k: list(v) for k, v in views.items()}, expected=want)
+    if prop == "C18":
+        # an empty list of examples: every version converts (OpenAPI 3.0 has `example`, taken from the first one when there is one)
+        from apischema import schema as _schema
+        src = ["from dataclasses import dataclass, field", "from apischema import schema", "", "@dataclass", f"class Ex{i}:", "    a: int = field(default=0, metadata=schema(examples=[]))",
+               "    b: int = field(default=0, metadata=schema(examples=[1, 2]))", ""]
+        Ex = vars(build_module(src, f"corners7ex_{seed}"))[f"Ex{i}"]
+        for ver in (JsonSchemaVersion.DRAFT_2020_12, JsonSchemaVersion.DRAFT_7, JsonSchemaVersion.OPEN_API_3_0, JsonSchemaVersion.OPEN_API_3_1):
+            n += 1; distinct.add(case_hash("c7-examples", str(ver.schema), ver.ref_prefix)); hist["empty-examples"] += 1
+            r = _out(lambda: deserialization_schema(Ex, version=ver, all_refs=False))
+            if r[0] != "ok": _fail(failures, "empty-examples", "crash:" + r[1].split(":")[0] if r[0] == "crash" else "schema-generation-raises", version=str(ver.schema), got=r)
+            elif ver is JsonSchemaVersion.OPEN_API_3_0 and ("examples" in json.dumps(r[1]) or r[1]["properties"]["b"].get("example") != 1):
+                _fail(failures, "empty-examples", "keyword-outside-the-target-vocabulary:examples", got=r[1])
     if prop == "C19":
         # resolvers on properties and methods overridden in a subclass (not re-decorated): the executed query returns what the attribute of the object is
         import graphql
